@@ -18,7 +18,7 @@ using Str = std::string;
 
 struct Case {
     std::vector<uint8_t> bytes;
-    int                  gen2{0}; // 1: operation 38 is "merge a sized-but-empty temporary" (absent in older replay files: 0)
+    int                  gen2{0}; // 1: operations 38 / 39 are "merge a sized-but-empty temporary" / "assign from an own descendant" (absent in older replay files: 0)
 };
 
 // ------------------------------------------------------------------------------------------------ model
@@ -1089,6 +1089,55 @@ struct Runner {
                         }
                         trace += how == 2 ? "Merge(move sized-empty);" : "Merge(copy sized-empty);";
                     }
+                    break;
+                }
+                // fall through
+            case 39:
+                if (gen2 != 0 && op == 39) { // v = v[i] / v = move(v[k]): a container replaced by (a copy of) one of its own descendants
+                    Tgt t = pick_target();
+                    if (has_ptr(*t.m)) {
+                        break;
+                    }
+                    VC      *dv = t.v;
+                    MV      *dm = t.m;
+                    unsigned depth = 1 + e.below(2);
+                    bool     moved_down = false;
+                    for (unsigned s = 0; s < depth; ++s) {
+                        if (dm->k == MK::Arr && !dm->arr.empty()) {
+                            size_t i = e.below(uint32_t(dm->arr.size()));
+                            VC    *c = dv->GetValue(SizeT(i));
+                            if (c == nullptr) {
+                                break; // Undefined element: nothing to take
+                            }
+                            dv = c;
+                            dm = &dm->arr[i];
+                            moved_down = true;
+                        } else if (dm->k == MK::Obj && !dm->obj.empty()) {
+                            size_t i = e.below(uint32_t(dm->obj.size()));
+                            VC    *c = dv->GetValue(dm->obj[i].first.data(), SizeT(dm->obj[i].first.size()));
+                            if (c == nullptr) {
+                                break; // member without a value
+                            }
+                            dv = c;
+                            dm = &dm->obj[i].second;
+                            moved_down = true;
+                        } else {
+                            break;
+                        }
+                    }
+                    if (!moved_down) {
+                        break;
+                    }
+                    const bool move = e.chance(40);
+                    MV         taken = move ? *dm : deep_copy(*dm);
+                    if (move) {
+                        *t.v = Memory::Move(*dv);
+                    } else {
+                        *t.v = static_cast<const VC &>(*dv);
+                    }
+                    *t.m = taken;
+                    trace += move ? "=move(own descendant);" : "=copy(own descendant);";
+                    interesting = true;
                     break;
                 }
                 // fall through
